@@ -54,3 +54,15 @@ pub fn fold_constraint_set(
 pub fn character_set(string_type: CharacterStringType) -> Vec<char> {
     string_type.character_set().values().copied().collect()
 }
+
+/// Parses the constraint notation following a type, e.g. `(1..5 | 7, ...)(0..MAX)`.
+pub fn parse_constraints(
+    text: &str,
+) -> Result<Vec<crate::intermediate::constraints::Constraint>, String> {
+    use nom::Parser;
+    match crate::lexer::verif_constraints().parse(crate::input::Input::from(text)) {
+        Ok((rest, cs)) if rest.inner().trim().is_empty() => Ok(cs),
+        Ok((rest, _)) => Err(format!("trailing input: {}", rest.inner())),
+        Err(_) => Err("parse error".to_string()),
+    }
+}
